@@ -125,6 +125,12 @@ def all_of_merge_rule(cx, rep, rid):
                 for x in list(cond_nodes):
                     if x["k"] == "Path" and x.get("lid") in lets:
                         cond_nodes += list(walk(lets[x["lid"]]))
+                # the comparison may sit in a private predicate the condition calls (`has_conflicting_key(..)`)
+                for x in list(cond_nodes):
+                    if x["k"] in ("Call", "MethodCall"):
+                        tg = F._callee_gid(ao[0].crate, (x.get("resolved") or x.get("callee") or ""))
+                        if tg in F.hir and tg != ao[0].id and (F.fns[tg].output or "") == "bool":
+                            cond_nodes += list(walk(F.hir[tg]["body"]))
                 if not any(c is x for c in cmps for x in cond_nodes):
                     continue
                 for r in walk(n["then"]):
@@ -209,6 +215,58 @@ def sibling_tables_rule(cx, rep, rid):
     rep.floor(rid, "functions constructing AnyOfDiscriminatedRuntype", n, 1)
 
 
+def hoist_key_converters(F):
+    """(key ADTs, converter functions) of the printer's hoisting table, by role"""
+    key_adts = set()
+    for gid, a in F.adts.items():
+        if not gid.startswith("print::"):
+            continue
+        for v in a["variants"]:
+            for fl in v["fields"]:
+                m_ = re.match(r"^std::collections::(?:BTreeMap|HashMap)<([\w:]+), (.*)>$", fl["ty"])
+                if not m_ or m_.group(1) not in F.adts:
+                    continue
+                val = m_.group(2)
+                # the value holds an emitted expression: directly, in a tuple, or as a field of a local record type
+                holds = "swc_ecma_ast::Expr" in val or any(
+                    "swc_ecma_ast::Expr" in f2["ty"] for o_, a2 in F.adts.items() if re.search(r"(?<![\w:])%s(?![\w])" % re.escape(o_), val)
+                    for v2 in a2["variants"] for f2 in v2["fields"])
+                if holds:
+                    key_adts.add(m_.group(1))
+    work = list(key_adts)
+    while work:
+        k_ = work.pop()
+        for v in F.adts[k_]["variants"]:
+            for fl in v["fields"]:
+                for other in F.adts:
+                    if other.startswith("print::") and other not in key_adts and re.search(r"(?<![\w:])%s(?![\w])" % re.escape(other), fl["ty"]):
+                        key_adts.add(other)
+                        work.append(other)
+    convs = [f for f in F.fns.values() if f.impl_self in key_adts and f.id in F.hir and f.kind == "AssocFn" and len(f.inputs or []) == 1
+             and (f.inputs[0] or "").startswith("&ast::") and (f.output or "") in key_adts]
+    return key_adts, convs
+
+
+def hoist_key_optionality_rule(cx, rep, rid):
+    """no converter of the hoisting table (or helper it calls) reads a field through an accessor that forgets whether
+    the member is optional: `{[k: string]: V}` and `{[k: string]?: V}` would share one hoisted validator, whichever is
+    printed first"""
+    F = cx.rs
+    key_adts, convs = hoist_key_converters(F)
+    from rules.c02 import optionality_erasers
+    erasers = optionality_erasers(F)
+    for f in sorted(convs, key=lambda x: x.id):
+        er = []
+        for x, _o in walk_inlined(F, f.id, private_only=True):
+            if x["k"] in ("Call", "MethodCall"):
+                cal = x.get("resolved") or x.get("callee") or ""
+                if F._callee_gid(f.crate, cal) in erasers or re.sub(r"<[^<>]*>", "<T>", cal) in erasers:
+                    er.append(x)
+        rep.ob(rid, "%s/keeps-optionality" % f.name, not er,
+               "%s builds a hoist key through an accessor that forgets the optionality of a member (%s): two types that differ only there get the same key, and the second one is emitted as a reference to the first one's validator" % (f.id, ", ".join(sorted({(x.get("method") or (x.get("callee") or "?").rsplit("::", 1)[-1]) for x in er}))),
+               "%s:%s" % (f.file, er[0]["line"] if er else f.line), sample={"converter": f.name})
+
+
 def run(cx, rep):
     F = cx.rs
     rep.explanation = (
@@ -275,34 +333,8 @@ def run(cx, rep):
     rep.rule("C08.3", "hoist keys cover every field of every variant")
     # the hoist-key types, by role: the key type of the printer's table of hoisted expressions (a map whose values hold
     # an emitted `Expr`) and the local types it is built from - whatever module a refactoring keeps them in
-    key_adts = set()
-    for gid, a in F.adts.items():
-        if not gid.startswith("print::"):
-            continue
-        for v in a["variants"]:
-            for fl in v["fields"]:
-                m_ = re.match(r"^std::collections::(?:BTreeMap|HashMap)<([\w:]+), (.*)>$", fl["ty"])
-                if not m_ or m_.group(1) not in F.adts:
-                    continue
-                val = m_.group(2)
-                # the value holds an emitted expression: directly, in a tuple, or as a field of a local record type
-                holds = "swc_ecma_ast::Expr" in val or any(
-                    "swc_ecma_ast::Expr" in f2["ty"] for o_, a2 in F.adts.items() if re.search(r"(?<![\w:])%s(?![\w])" % re.escape(o_), val)
-                    for v2 in a2["variants"] for f2 in v2["fields"])
-                if holds:
-                    key_adts.add(m_.group(1))
-    work = list(key_adts)
-    while work:
-        k_ = work.pop()
-        for v in F.adts[k_]["variants"]:
-            for fl in v["fields"]:
-                for other in F.adts:
-                    if other.startswith("print::") and other not in key_adts and re.search(r"(?<![\w:])%s(?![\w])" % re.escape(other), fl["ty"]):
-                        key_adts.add(other)
-                        work.append(other)
+    key_adts, convs = hoist_key_converters(F)
     rep.floor("C08.3", "hoist-key types", len(key_adts), 2)
-    convs = [f for f in F.fns.values() if f.impl_self in key_adts and f.id in F.hir and f.kind == "AssocFn" and len(f.inputs or []) == 1
-             and (f.inputs[0] or "").startswith("&ast::") and (f.output or "") in key_adts]
     rep.floor("C08.3", "Printable*Key converters", len(convs), 4)
     n_arms = 0
     for f in sorted(convs, key=lambda x: x.id):
@@ -366,6 +398,7 @@ def run(cx, rep):
                 rep.ob("C08.3", "%s/fields" % f.name, need <= read, "%s ignores fields %s of %s in the hoist key" % (f.id, sorted(need - read), pty), f.loc(),
                        sample={"converter": f.name, "source": pty, "fields_read": sorted(read)})
     rep.floor("C08.3", "converter arms", n_arms, 26)
+    hoist_key_optionality_rule(cx, rep, "C08.3")
     for i in F.impls:
         if i["self"] in key_adts and i.get("trait") in ("std::cmp::PartialEq", "std::cmp::Ord"):
             rep.ob("C08.3", "derived/%s/%s" % (i["self"].rsplit("::", 1)[-1], i["trait"].rsplit("::", 1)[-1]), bool(i.get("derived")),
